@@ -1,4 +1,5 @@
 import Aiortc.Lemmas.CloseLive
+import Aiortc.Model.CloseSetIter
 /-! # C19 — close() always completes, is idempotent and leaves nothing running
 
 Theorems about `Model/Close.lean` (the shutdown protocol of `RTCPeerConnection.close()` with fixes/C19-*.patch applied),
@@ -17,6 +18,8 @@ observations.  `guaranteed` marks the task steps that need no help from the envi
 * `after_close`       in a final state signalling / ICE / connection state are `closed`, every data channel is closed, every
   task and decoder thread has finished, received tracks have their end marker, no listener is left, no close() is pending.
 * `close_idempotent`  a further `close()` only adds a waiter, which returns without touching anything.
+* round 2: `close_stops_all_transports_present_at_snapshot`, `cleanup_stops_what_it_discards`, `cleanup_disjoint_from_snapshot`,
+  `final_transports`, `no_stuck_cleanups`, `tset_spec`; `live_set_iteration_can_crash` (the variant that walks the live sets).
 
 What is NOT proved (partial by nature, see ASSUMPTIONS in harness/props/C19.py): that the Python code implements this
 protocol (checked by trace acceptance on real connections), that cancellations are delivered and threads joined in finite
@@ -64,7 +67,8 @@ theorem closed_stable {s s' : State} {a : Action} (hc : s.closed = true) (h : s.
       all_goals (repeat' split at h)
       all_goals (try (simp at h; done))
       all_goals (simp only [Option.map_eq_some_iff] at h; obtain ⟨_, _, rfl⟩ := h
-                 simp [State.setTpt, State.autoTrigger, hc])
+                 simp only [State.setTpt, State.autoTrigger, State.syncSet]
+                 (repeat' split) <;> simp [hc])
     · simp at h
   all_goals (repeat' split at h)
   all_goals (try (simp at h; done))
@@ -96,25 +100,23 @@ theorem close_input_bound {s s' : State} {a : Action} (hc : s.closed = true) (hk
     (h : s.step a = some s') : mu s' ≤ mu s + 1 := by
   cases a with
   | trx i a =>
-    cases a <;> (try (simp [Action.kind] at hk; done)) <;> simp only [State.step] at h <;>
-      (repeat' split at h) <;> simp_all
-  | tpt k a =>
-    cases a <;> (try (simp [Action.kind] at hk; done))
-    simp only [State.step] at h
-    split at h
-    · rename_i t ht
+    cases a with
+    | cancel w =>
+      simp only [State.step] at h
       split at h
-      · simp only [Option.map_eq_some_iff] at h
+      · rename_i t ht
+        simp only [Option.map_eq_some_iff] at h
         obtain ⟨t', ht', rfl⟩ := h
-        have hW : tptW t' = tptW t := by
-          simp only [tptStep] at ht'
-          split at ht'
-          · injection ht' with ht'; subst ht'; simp [tptW, Tpt.rank]
-          · simp at ht'
-        have := sumBy_set tptW s.tpts k t t' ht
-        simp only [mu, State.setTpt]; omega
+        have ht' : trxStep false t (.cancel w) = some t' := ht'
+        have hW := trxStep_W ht'
+        have := sumBy_set trxW s.trxs i t t' ht
+        simp only [mu, State.setTrx]; simp only at hW; omega
       · simp at h
-    · simp at h
+    | mkTrack | assign k =>
+      simp only [State.step] at h
+      (repeat' split at h) <;> simp_all
+    | sndStart | rcvStart | first w | exit w | decoderStop => simp [Action.kind] at hk
+  | tpt k a => cases a <;> simp [Action.kind] at hk
   | closeCall b =>
     cases b
     · simp [State.step, hc] at h; subst h; simp only [mu]; omega
@@ -215,6 +217,118 @@ theorem close_idempotent_returns {s : State} (hc : s.closed = true) (hd : s.clos
 theorem closed_starts_nothing {s : State} (hr : Reach s) (hc : s.closed = true) :
     s.step .negBegin = none ∧ s.step .negSpawn = none ∧ s.liveConn = false :=
   ⟨by simp [State.step, hc], by simp [State.step, hc], liveConn_false (inv_reachable hr).conns hc⟩
+
+/-! ## concurrent mutators of the transport sets (round 2)
+
+Negotiation calls are tasks of the same system: the BUNDLE clean-up of a `setRemoteDescription()` in flight (`nstep`: stop the
+unused transport, then discard it from `tset`) and an application `RTCRtpTransceiver.stop()` (`cancel`) go on while `close()`
+is suspended.  `close_terminates`, `no_stuck`, `after_close` above are stated over ALL schedules of this system, so they cover
+these interleavings; `Final` now also says that every clean-up has run to its end.  What follows says why it matters that
+`close()` works on a snapshot (the transports reachable from the transceivers and SCTP at the latch). -/
+
+/-- the model's `tset` is the set `__dtlsTransports` / `__iceTransports`: exactly the transports not yet discarded, each once -/
+theorem tset_spec {s : State} (hr : Reach s) :
+    s.tset.Nodup ∧ ∀ k, k ∈ s.tset ↔ ∃ t, s.tpts[k]? = some t ∧ t.inSet = true :=
+  ⟨(inv_reachable hr).tsetNodup, (inv_reachable hr).tsetOk⟩
+
+/-- **the snapshot covers the set.**  Every transport that is in the connection's transport set when `close()` takes its
+snapshot either carries an m-section - then both its `stop()` calls are in close()'s program, whatever a concurrent call
+does to the set afterwards - or carries none and was never started (nothing to stop; if a `setRemoteDescription()` is
+cleaning it up, that call stops it: `cleanup_stops_what_it_discards`, `final_transports`). -/
+theorem close_stops_all_transports_present_at_snapshot {s s' : State} {b : Bool} {k : Nat} {t : Tpt}
+    (hr : Reach s) (hc : s.closed = false) (h : s.step (.closeCall b) = some s') (_hk : k ∈ s.tset)
+    (ht : s.tpts[k]? = some t) :
+    (s.refd k = true ∧ Instr.stopDtls k ∈ s'.prog ∧ Instr.stopIce k ∈ s'.prog)
+    ∨ (s.refd k = false ∧ t.unstarted = true) := by
+  have hI := inv_reachable hr
+  have hprog : s'.prog = s.program := by
+    simp only [State.step] at h
+    split at h
+    · simp at h
+    · cases b <;> simp [hc] at h <;> subst h <;> rfl
+  cases hrk : s.refd k with
+  | true =>
+    left
+    rw [hprog]
+    exact ⟨rfl, (mem_program_tpt hrk).1, (mem_program_tpt hrk).2⟩
+  | false =>
+    right
+    refine ⟨rfl, ?_⟩
+    cases hu : t.unstarted with
+    | true => rfl
+    | false => have := hI.refs hc k t ht hu; rw [hrk] at this; simp at this
+
+/-- a transport leaves the set only at the end of a clean-up, and that clean-up has stopped it -/
+theorem cleanup_stops_what_it_discards {s : State} {k : Nat} {t : Tpt} (hr : Reach s) (ht : s.tpts[k]? = some t)
+    (hd : t.inSet = false) : t.ice = .closed ∧ t.connClosed = true ∧ t.unstarted = true ∧ k ∉ s.tset := by
+  have hI := inv_reachable hr
+  obtain ⟨n1, n2, n3, n4, n5, n6⟩ := hI.wfN k t ht
+  have h4 := n4.mp hd
+  refine ⟨n2 (by omega), n3 (by omega), n5 (by omega), ?_⟩
+  intro hm
+  obtain ⟨t', ht', hin⟩ := (hI.tsetOk k).mp hm
+  rw [ht] at ht'; injection ht' with ht'; subst ht'
+  rw [hd] at hin; simp at hin
+
+/-- a transport under clean-up is never one of those `close()` stops (no m-section uses it), so the two never touch the same
+transport; and no m-section can be moved onto it (`addTrx`, `assign` need a free transport) -/
+theorem cleanup_disjoint_from_snapshot {s : State} {k : Nat} {t : Tpt} (hr : Reach s) (ht : s.tpts[k]? = some t)
+    (hn : 1 ≤ t.nstop) : s.refd k = false ∧ s.free k = false := by
+  refine ⟨(inv_reachable hr).unref k t ht hn, ?_⟩
+  simp [State.free, ht]; omega
+
+/-- **every transport is stopped by somebody.**  In a final state every transport is stopped (ICE closed, pump and monitor
+finished) - by `close()` if it carried an m-section at the snapshot, by the negotiation call that discarded it otherwise -
+unless no m-section uses it and no clean-up ever began on it. -/
+theorem final_transports {s : State} {k : Nat} {t : Tpt} (hr : Reach s) (hf : Final s) (ht : s.tpts[k]? = some t) :
+    (t.ice = .closed ∧ t.pump ≠ .live ∧ t.monQuiet = true) ∨ (s.refd k = false ∧ t.nstop = 0) := by
+  have hI := inv_reachable hr
+  have hcl := (hI.dne hf.done).1
+  obtain ⟨hp, hm⟩ := hf.tpts k t ht
+  cases hrk : s.refd k with
+  | true =>
+    left
+    have := hI.coverI hcl k t ht hrk
+    rw [hf.prog] at this
+    simp at this
+    exact ⟨this, hp, hm⟩
+  | false =>
+    rcases hf.cleanups k t ht with h0 | h4
+    · exact Or.inr ⟨rfl, h0⟩
+    · left
+      exact ⟨(hI.wfN k t ht).2.1 (by omega), hp, hm⟩
+
+/-- `Final` with the clean-ups: from any reachable closed state with no guaranteed step left (the steps of a clean-up in
+progress are guaranteed ones) every clean-up has reached its end -/
+theorem no_stuck_cleanups {s : State} (hr : Reach s) (hc : s.closed = true) (hq : Quiescent s) :
+    ∀ (k : Nat) (t : Tpt), s.tpts[k]? = some t → t.nstop = 0 ∨ t.nstop = 4 :=
+  (no_stuck hr hc hq).cleanups
+
+/-! ### the variant that iterates over the live sets (seeded change C19-r2) -/
+
+/-- in the variant, the schedule "setRemoteDescription(answer) discards the bundled-away transport while close() is suspended
+in `await iceTransport.stop()`" makes the set iterator raise: close() dies -/
+theorem live_set_iteration_can_crash :
+    ((LiveIter.init.run (bundleRaceSetup ++ bundleRaceCloseA ++ bundleRaceDiscard ++ bundleRaceCloseB)).map
+      fun v => (v.crashed, v.s.closed, v.s.closeDone)) = some (true, true, false) := by rfl
+
+/-- once it has crashed, no step of close() is enabled any more … -/
+theorem crashed_close_is_dead (v : LiveIter) (hc : v.crashed = true) (l : CLabel) : v.step (.close l) = none := by
+  simp [LiveIter.step, hc]
+
+/-- … so a further close() waits for ever: it is accepted (`waiters + 1`) but its return needs `closeDone` -/
+theorem crashed_second_close_blocks :
+    ((LiveIter.init.run (bundleRaceSetup ++ bundleRaceCloseA ++ bundleRaceDiscard ++ bundleRaceCloseB
+        ++ [.closeCall false])).map fun v => (v.s.waiters, v.s.closeDone, (v.step .waiterReturn).isSome))
+      = some (1, false, false) := by rfl
+
+/-- the real close() under the very same schedule completes: its program was laid out from the transceivers (transport 0
+twice, transport 1 not at all), the discard does not concern it -/
+theorem snapshot_survives_the_same_schedule :
+    ((State.init.run (bundleRaceSetup ++ snapshotClose)).map
+      fun s => (s.closeDone, s.tset, s.tpts.map (fun t => (t.ice, t.inSet, t.nstop)))) =
+      some (true, [0], [(.closed, true, 0), (.closed, false, 4)]) := by rfl
+
 
 /-! ## non-vacuity: concrete runs of the model (kept small: they are evaluated by the kernel) -/
 
